@@ -19,6 +19,12 @@ import tempfile
 VERIF = os.path.dirname(os.path.dirname(os.path.abspath(__file__)))
 
 
+def _private_tmp(dst):
+    d = os.path.join(dst, "tmp")
+    os.makedirs(d, exist_ok=True)
+    return d
+
+
 def main():
     ap = argparse.ArgumentParser()
     ap.add_argument("--patch")
@@ -71,7 +77,8 @@ def main():
             subprocess.run(["/venv/bin/python", "-m", "pytest", "-q", "-p", "no:cacheprovider", "--timeout=900",
                             "--continue-on-collection-errors", f"--junitxml={junit}"], cwd=work,
                            stdout=subprocess.DEVNULL, stderr=subprocess.DEVNULL,
-                           env=dict(os.environ, PYTHONPATH=work))
+                           env=dict(os.environ, PYTHONPATH=work, TMPDIR=_private_tmp(dst)))  # tests/test_parallelroads.py writes
+            # <tmp>/map.sqlite: a private TMPDIR keeps concurrent runs apart
             import xml.etree.ElementTree as ET
             ok = set()
             for tc in ET.parse(junit).getroot().iter("testcase"):
